@@ -1255,11 +1255,17 @@ theorem matureVal_VInv {n : Nat} {v : VS} (hi : VInv n v) : VInv n v.matureVal :
   · exact hi
   · exact status_VInv v.bonded true v.jailed v.ubHeight hi
 
-theorem matureStep_VInv {n : Nat} {v : VS} (h : Nat) (hi : VInv n v) :
-    VInv n (if v.bonded then v.endBlock h else (v.endBlock h).matureVal) := by
+theorem matureValTo_VInv {n : Nat} {v : VS} (H : Nat) (hi : VInv n v) : VInv n (v.matureValTo H) := by
+  unfold VS.matureValTo
+  split
+  · exact matureVal_VInv hi
+  · exact hi
+
+theorem matureStep_VInv {n : Nat} {v : VS} (h H : Nat) (hi : VInv n v) :
+    VInv n (if v.bonded then v.endBlock h else (v.endBlock h).matureValTo H) := by
   split
   · exact endBlock_VInv h hi
-  · exact matureVal_VInv (endBlock_VInv h hi)
+  · exact matureValTo_VInv H (endBlock_VInv h hi)
 
 /-- one successful operation keeps the invariant of every validator (and the universe of accounts / validators) -/
 theorem exec_SInv {c : Cfg} (hg : good c = true) {s s' : State} {o : Op}
@@ -1378,10 +1384,10 @@ theorem exec_SInv {c : Cfg} (hg : good c = true) {s s' : State} {o : Op}
     simp only [State.exec] at h
     cases h
     exact ⟨fun w hw => endBlock_VInv _ (hi w hw), rfl, rfl⟩
-  | mature =>
+  | mature H =>
     simp only [State.exec] at h
     cases h
-    exact ⟨fun w hw => matureStep_VInv _ (hi w hw), rfl, rfl⟩
+    exact ⟨fun w hw => matureStep_VInv _ H (hi w hw), rfl, rfl⟩
   | jail v =>
     simp only [State.exec] at h
     split at h
